@@ -51,3 +51,5 @@ mod c08_powlog;
 mod c04_wide_shift;
 #[cfg(kani)]
 mod wide8;
+#[cfg(kani)]
+mod wide57;
